@@ -637,7 +637,7 @@ var malformed = []string{
 
 func (p *prop) Generate(rng *core.Rand, tier string, emit func(string)) {
 	p.setup()
-	nScen, maxCfgs, storms, stormLen := 40, 5, 1, 40
+	nScen, maxCfgs, storms, stormLen := 30, 5, 1, 30
 	switch tier {
 	case "thorough":
 		nScen, maxCfgs, storms, stormLen = 200, 7, 3, 150
